@@ -5,6 +5,7 @@ package main
 // their contracts, or inlined when they are closures under a higher-order summary.
 
 import (
+	"math"
 	"fmt"
 	"go/constant"
 	"go/token"
@@ -403,6 +404,18 @@ func (fr *Frame) val(v ssa.Value, st *State) *Val {
 	return r
 }
 
+// fpLit is the binary64 literal with exactly the bits of f.
+func fpLit(f float64) Term {
+	bits := math.Float64bits(f)
+	return Term{fmt.Sprintf("(fp #b%01b #b%011b #b%052b)", bits>>63, (bits>>52)&0x7ff, bits&((1<<52)-1)), SFloat}
+}
+
+// isFloat64 reports whether t is (a defined type over) float64 - the only float kind modelled exactly.
+func isFloat64(t types.Type) bool {
+	b, ok := under(t).(*types.Basic)
+	return ok && (b.Kind() == types.Float64 || b.Kind() == types.UntypedFloat)
+}
+
 func (c *FuncCtx) fnConst(fn *ssa.Function) Term {
 	name := "fn_" + sanitize(fn.String())
 	c.sc.declFun(name, nil, SFn)
@@ -651,6 +664,10 @@ func (c *FuncCtx) constTerm(k *ssa.Const) Term {
 		case u.Info()&types.IsString != 0:
 			return c.sc.strConst(constant.StringVal(k.Value))
 		case u.Info()&types.IsFloat != 0, u.Info()&types.IsComplex != 0:
+			if c.sc.ieeeFloats && u.Info()&types.IsFloat != 0 {
+				f, _ := constant.Float64Val(constant.ToFloat(k.Value))
+				return fpLit(f)
+			}
 			name := "flt_" + sanitize(k.Value.ExactString())
 			c.sc.declFun(name, nil, SFloat)
 			return Term{name, SFloat}
